@@ -40,6 +40,7 @@
 #include <symengine/symengine_exception.h>
 
 #include <fuzzer/FuzzedDataProvider.h>
+#include <cmath>
 #include <new>
 
 using namespace SymEngine;
@@ -173,6 +174,8 @@ bool small_for_arith(const B &b)
     return num_bits(b) <= 4096;
 }
 
+bool nonfinite_double_inside(const B &b);
+
 // ---- mode B: program -> object
 B build(FuzzedDataProvider &fdp)
 {
@@ -260,6 +263,10 @@ B build(FuzzedDataProvider &fdp)
                 case 12: {
                     F1 f = FUN1[fdp.ConsumeIntegralInRange<size_t>(0, sizeof(FUN1) / sizeof(FUN1[0]) - 1)];
                     B a = pick();
+                    // generator precondition: floor/ceiling/truncate of a non-finite double kill the process (SIGFPE in
+                    // mpz_set_d, recorded as KF-C18-03); building the object is not what C20 tests
+                    if ((f == (F1)floor || f == (F1)ceiling || f == (F1)truncate) && nonfinite_double_inside(a))
+                        break;
                     if (small_for_function(a))
                         r = f(a);
                     break;
@@ -566,9 +573,38 @@ void edit(std::string &s, Rng &fdp, fz::Stats &st)
     }
 }
 
+bool nonfinite_double_inside(const B &b)
+{
+    if (is_a<RealDouble>(*b))
+        return !std::isfinite(down_cast<const RealDouble &>(*b).i);
+    if (is_a<ComplexDouble>(*b)) {
+        std::complex<double> c = down_cast<const ComplexDouble &>(*b).i;
+        return !std::isfinite(c.real()) || !std::isfinite(c.imag());
+    }
+    for (auto &a : b->get_args())
+        if (nonfinite_double_inside(a))
+            return true;
+    return false;
+}
+bool has_rounding_node(const B &b)
+{
+    if (is_a<Floor>(*b) || is_a<Ceiling>(*b) || is_a<Truncate>(*b))
+        return true;
+    for (auto &a : b->get_args())
+        if (has_rounding_node(a))
+            return true;
+    return false;
+}
+
 // ---- post-load operations: none may crash
 void exercise(const B &b, fz::Stats &st)
 {
+    // KF-C20-01 (same root cause as KF-C18-03): re-evaluating Floor/Ceiling/Truncate of a non-finite double gives it to
+    // mpz_set_d (SIGFPE).  Excluded by construction while the finding is open.
+    if (st.tag("floor_nonfinite_double") && has_rounding_node(b) && nonfinite_double_inside(b)) {
+        st.exclude("floor_nonfinite_double");
+        return;
+    }
     std::string text;
     try {
         text = b->__str__();
@@ -644,9 +680,82 @@ void exercise(const B &b, fz::Stats &st)
     }
 }
 
+// ---- KF-C20-01 pre-filter ----------------------------------------------------------------------
+// load_basic(BooleanAtom) / load_basic(Interval) read a stored byte straight into a `bool`; a byte other than 0/1 is
+// undefined behaviour (UBSan: load of invalid value).  While that finding is open (tag load_bool_invalid_byte), inputs in
+// which such a byte is -- or cannot be shown not to be -- different from 0/1 are excluded by construction: every offset
+// where the two bytes (first_seen = 1, type code BooleanAtom | Interval) occur is treated as a possible header.
+// skip_number walks one serialized Number (addr, first_seen, [type code, body]) and returns the offset after it, or
+// npos when it cannot tell.
+const size_t NPOS = std::string::npos;
+size_t skip_number(const std::string &s, size_t p, int depth)
+{
+    if (depth > 6 || p + 9 > s.size())
+        return NPOS;
+    unsigned char fs = (unsigned char)s[p + 8];
+    if (fs == 0)
+        return p + 9; // a reference
+    if (fs != 1 || p + 10 > s.size())
+        return NPOS;
+    unsigned code = (unsigned char)s[p + 9];
+    p += 10;
+    switch (code) {
+        case SYMENGINE_INTEGER: {
+            if (p + 8 > s.size())
+                return NPOS;
+            uint64_t n;
+            memcpy(&n, s.data() + p, 8);
+            if (n > s.size())
+                return NPOS;
+            return p + 8 + (size_t)n;
+        }
+        case SYMENGINE_REAL_DOUBLE:
+            return p + 8;
+        case SYMENGINE_NOT_A_NUMBER:
+            return p;
+        case SYMENGINE_INFTY:
+            return skip_number(s, p, depth + 1);
+        case SYMENGINE_RATIONAL:
+        case SYMENGINE_COMPLEX:
+        case SYMENGINE_COMPLEX_DOUBLE: {
+            size_t q = skip_number(s, p, depth + 1);
+            return q == NPOS ? NPOS : skip_number(s, q, depth + 1);
+        }
+        default:
+            return NPOS;
+    }
+}
+bool maybe_invalid_bool(const std::string &s)
+{
+    for (size_t i = 0; i + 2 < s.size() + 1; i++) {
+        if (s[i] != 1 || i + 1 >= s.size())
+            continue;
+        unsigned code = (unsigned char)s[i + 1];
+        if (code == SYMENGINE_BOOLEAN_ATOM) {
+            if (i + 2 < s.size() && (unsigned char)s[i + 2] > 1)
+                return true;
+        } else if (code == SYMENGINE_INTERVAL) {
+            if (i + 2 >= s.size())
+                continue; // truncated: the loader throws before reading the flag
+            if ((unsigned char)s[i + 2] > 1)
+                return true;
+            size_t q = skip_number(s, i + 3, 0);
+            if (q == NPOS)
+                return true; // cannot locate right_open
+            if (q < s.size() && (unsigned char)s[q] > 1)
+                return true;
+        }
+    }
+    return false;
+}
+
 void run_loads(const std::string &bytes, const char *mode, const uint8_t *unit, size_t unit_size)
 {
     fz::Stats &st = fz::stats();
+    if (st.tag("load_bool_invalid_byte") && maybe_invalid_bool(bytes)) {
+        st.exclude("load_bool_invalid_byte");
+        return;
+    }
     B b;
     try {
         b = Basic::loads(bytes);
